@@ -52,11 +52,11 @@ package main
 //@   let a = algoof(jsstring(args[4]))
 //@   let key = b32key(jsstring(args[0]))
 //@   let code = jsstring(args[1])
-//@   requires len(args) == 6 && narg(args[2]) ==> c <= 9007199254740992
+//@   domain len(args) == 6 && narg(args[2]) ==> c <= 9007199254740992
 //@   ensures[error] !(ok && b32ok(jsstring(args[0]))) ==> iserr(r)
 //@   ensures[window] ok && b32ok(jsstring(args[0])) ==> isbool(r, len(code) == d &&
 //@ |    exists j in -10..10 :: -s <= j && j <= s && c + j >= 0 && code == hotp(a, key, c + j, d))
-//@   loop 1 invariant -s <= i && i <= s + 1 && ok && b32ok(jsstring(args[0])) && view(secretBuf) == key && skew == s && counter == c && digits == d && algo == a
+//@   loop 1 invariant[safe] -s <= i && i <= s + 1 && ok && b32ok(jsstring(args[0])) && view(secretBuf) == key && skew == s && counter == c && digits == d && algo == a
 //@   loop 1 invariant forall j in -10..10 :: -s <= j && j < i && c + j >= 0 ==> !(len(code) == d && code == hotp(a, key, c + j, d))
 //@   loop 1 decreases s + 1 - i
 //@   loop 1 bound 21
@@ -70,11 +70,11 @@ package main
 //@   let a = algoof(jsstring(args[4]))
 //@   let key = b32key(jsstring(args[0]))
 //@   let code = jsstring(args[1])
-//@   requires len(args) == 7 && narg(args[2]) && narg(args[5]) && narg(args[6]) && jsint(args[6]) >= 1 ==> n >= min(s, 10)
+//@   domain len(args) == 7 && narg(args[2]) && narg(args[5]) && narg(args[6]) && jsint(args[6]) >= 1 ==> n >= min(s, 10)
 //@   ensures[error] !(ok && b32ok(jsstring(args[0]))) ==> iserr(r)
 //@   ensures[window] ok && b32ok(jsstring(args[0])) ==> isbool(r, len(code) == d &&
 //@ |    exists j in -10..10 :: -s <= j && j <= s && code == hotp(a, key, n + j, d))
-//@   loop 1 invariant -s <= i && i <= s + 1 && ok && b32ok(jsstring(args[0])) && view(secretBuf) == key && skew == s && counter == n && digits == d && algo == a
+//@   loop 1 invariant[safe] -s <= i && i <= s + 1 && ok && b32ok(jsstring(args[0])) && view(secretBuf) == key && skew == s && counter == n && digits == d && algo == a
 //@   loop 1 invariant forall j in -10..10 :: -s <= j && j < i ==> !(len(code) == d && code == hotp(a, key, n + j, d))
 //@   loop 1 decreases s + 1 - i
 //@   loop 1 bound 21
